@@ -175,6 +175,9 @@ func observeC17(r *astRun) c17Obs {
 				if src == "" {
 					tc.Src = "\x00missing"
 				}
+				if src == "\x00ambiguous" {
+					tc.Src = tc.Gen // not compared
+				}
 			}
 			o.Types = append(o.Types, tc)
 		}
@@ -226,7 +229,15 @@ func goCuratedWorlds() []wWorld {
 		{Head: mh("Bar_"), Nested: []wMsg{}}, {Head: mh("Bar"), Nested: []wMsg{}}}}
 	rev.Head.Oneofs = []string{"c"}
 	rev.Head.Enums = []wEnum{{Name: "Baz_", Values: []wEnumVal{{"BAZ1_ZERO", 0}}}, {Name: "Baz", Values: []wEnumVal{{"BAZ2_ZERO", 0}}}}
-	fl.Msgs = []wMsg{a, b, c, d, e, rev}
+	// reserving a oneof's name (no getter) gives up an earlier reservation of Get<name>:
+	// field get_x (GetX, GetGetX), oneof x (X; GetX free again), oneof getX -> GetX, not GetX_
+	free1 := wMsg{Head: mh("Free1", f("get_x", 1), of("a", 2, 0), of("b", 3, 1)), Nested: []wMsg{}}
+	free1.Head.Oneofs = []string{"x", "getX"}
+	free2 := wMsg{Head: mh("Free2", of("a", 1, 0), of("b", 2, 1), f("getX", 3)), Nested: []wMsg{}}
+	free2.Head.Oneofs = []string{"get_x", "x"}
+	ctrl := wMsg{Head: mh("FreeCtrl", f("get_x", 1), of("b", 2, 0)), Nested: []wMsg{}}
+	ctrl.Head.Oneofs = []string{"getX"}
+	fl.Msgs = []wMsg{a, b, c, d, e, rev, free1, free2, ctrl}
 	// a bare-name go_package at the root directory has import path ".", for which protoc-gen-go
 	// emits the qualifier `_` - the same alias as its blank imports of unused dependencies
 	// (false alarm of the thorough tier, seed 1: the source reader resolved `_` to the wrong import)
